@@ -153,6 +153,17 @@ func tvRunOpts(ctx *RunCtx, pkgs []*tv.Package, o tvOpts) error {
 		for _, is := range issues {
 			switch is.Kind {
 			case "unknown-ident":
+				// goose names the definition of method m of type T "T__m": a reference to such a name
+				// for a type declared in this very file, with no definition of that name anywhere, can
+				// not be provided by any library — the output refers to something that does not exist
+				if i := strings.Index(is.Name, "__"); i > 0 {
+					if _, local := glp.Defs[is.Name[:i]]; local {
+						mu.Lock()
+						ctx.addTVViolation(p, nil, "emitted/reference-to-an-undefined-definition", fmt.Sprintf("%s mentions %s, which is defined nowhere", is.In, is.Name), tr, nil)
+						mu.Unlock()
+						continue
+					}
+				}
 				if o.Validate {
 					mu.Lock()
 					ctx.Inconcl = append(ctx.Inconcl, fmt.Sprintf("package %s: %s", p.Name, is))
